@@ -25,3 +25,80 @@ Theorem expr_roundtrip_any_table : forall T nlv e f r,
   expr_ok T nlv e = true -> layout_head r -> length (toks_expr e) < f ->
   parse_expr T nlv (expr_fuel f) 0 (map DTok (toks_expr e) ++ r) = FOk (e, r).
 Proof. exact expr_roundtrip. Qed.
+
+(* ---- the guard is inhabited by a non-trivial program ---- *)
+(* Struct 1 { 2: number; 3: 4[]; 5: 6[3] }   Struct 4 { 7: string }
+   Task 0
+     Service 8  In: var 9, path 9.3[10].7, literal 1 {2: -1.5, 3: [{7: "s"}], 5: []}   Out: 9: 1, 11: number[2]
+     Parallel  call 12 (In: literal 4 {7: "x"})  call 12
+     Loop While  9.2 + 1 * 2 < 3 And !(9.2 == 0) Or true
+       Loop 10 To 9.2     Service 8
+       Parallel Loop 10 To 3     call 12 (In: 9.3[10])
+     Condition 9.2 / 2 - 1 >= -4 ... Passed: Service 8  Failed: call 12
+   Task 12  In: 13: 4   Service 8 Out: 14: 1   Out: 14 *)
+Definition example_program : program :=
+  {| p_structs :=
+       [ {| s_name := 1; s_attrs := [(2, TPlain TNumber); (3, TArray (TStructName 4) LenNone);
+                                     (5, TArray (TStructName 6) (LenNat 3))] |};
+         {| s_name := 4; s_attrs := [(7, TPlain TString)] |} ];
+     p_tasks :=
+       [ {| t_name := 0; t_ins := [];
+            t_body :=
+              [ SService 8
+                  [ PVar 9; PPath 9 [PF 3; PIdxVar 10; PF 7];
+                    PLit 1 (JObj [(2, JNum (Qmake (-3) 2)); (3, JArr [JObj [(7, JStr 15)]]); (5, JArr [])]) ]
+                  [(9, TPlain (TStructName 1)); (11, TArray TNumber (LenNat 2))];
+                SParallel [ {| c_name := 12; c_ins := [PLit 4 (JObj [(7, JStr 16)])]; c_outs := [] |};
+                            {| c_name := 12; c_ins := [PVar 9]; c_outs := [(17, TPlain (TStructName 1))] |} ];
+                SWhile (EBin OOr
+                          (EBin OAnd
+                             (EBin OLt (EBin OAdd (EPath 9 [PF 2]) (EBin OMul (ENum 1) (ENum 2))) (ENum 3))
+                             (ENot (EParen (EBin OEq (EPath 9 [PF 2]) (ENum 0)))))
+                          (EBool true))
+                  [ SCount false 10 (LimPath 9 [PF 2]) [SService 8 [] []];
+                    SCount true 10 (LimInt 3)
+                      [SCall {| c_name := 12; c_ins := [PPath 9 [PF 3; PIdxVar 10]]; c_outs := [] |}] ];
+                SCond (EBin OGe (EBin OSub (EBin ODiv (EPath 9 [PF 2]) (ENum 2)) (ENum 1)) (ENum (Qmake (-4) 1)))
+                  [SService 8 [] []]
+                  [SCall {| c_name := 12; c_ins := [PVar 9]; c_outs := [] |}] ];
+            t_outs := [] |};
+         {| t_name := 12; t_ins := [(13, TPlain (TStructName 4))];
+            t_body := [SService 8 [] [(14, TPlain (TStructName 1))]];
+            t_outs := [14] |} ] |}.
+
+Example example_names_ok : names_ok example_program = true.
+Proof. vm_compute. reflexivity. Qed.
+
+(* 'a / b * c' grouped left to right is NOT in the normal form of the generated parser's
+   table ('*' ranks above '/'), 'a * b / c' is; under the precedence the property states
+   both are *)
+Example div_then_mul_not_normal :
+  expr_ok impl_levels impl_not_level (EBin OMul (EBin ODiv (ENum 8) (ENum 2)) (ENum 2)) = false
+  /\ expr_ok impl_levels impl_not_level (EBin ODiv (EBin OMul (ENum 8) (ENum 2)) (ENum 2)) = true
+  /\ expr_ok standard_levels impl_not_level (EBin OMul (EBin ODiv (ENum 8) (ENum 2)) (ENum 2)) = true.
+Proof. vm_compute. repeat split; reflexivity. Qed.
+
+(* the known finding D14 as it shows in the model: the text '8 / 2 * 2 == 8' (as the guard of
+   a Condition) is read as 8 / (2 * 2) == 8 by the front end with the generated parser's
+   levels, and as (8 / 2) * 2 == 8 with the levels the property states *)
+Definition d14_text : text :=
+  {| t_lines :=
+       [ ln 0 [KTask; TLower 0];
+         ln 4 [KCondition];
+         ln 8 [TInt 8; OpSlash; TInt 2; OpStar; TInt 2; OpEq; TInt 8];
+         ln 4 [KPassed];
+         ln 8 [TUpper 1];
+         ln 0 [KEnd] ];
+     t_final_nl := true |}.
+
+Definition d14_prog (guard : expr) : program :=
+  {| p_structs := [];
+     p_tasks := [ {| t_name := 0; t_ins := [];
+                     t_body := [SCond guard [SService 1 [] []] []]; t_outs := [] |} ] |}.
+
+Theorem standard_precedence_refuted :
+  front_end d14_text
+    = FOk (d14_prog (EBin OEq (EBin ODiv (ENum 8) (EBin OMul (ENum 2) (ENum 2))) (ENum 8)))
+  /\ front_end_standard d14_text
+    = FOk (d14_prog (EBin OEq (EBin OMul (EBin ODiv (ENum 8) (ENum 2)) (ENum 2)) (ENum 8))).
+Proof. split; vm_compute; reflexivity. Qed.
